@@ -8,6 +8,7 @@ CONSTANTS
   MaxSteps = 6
   Mode = "blocks"
   RestoreOnException = TRUE
+  HandleCaptures = FALSE
 INVARIANT EnabledIffOutside
 INVARIANT NoJunkOutside
 INVARIANT CaseInv
